@@ -679,6 +679,23 @@ pub fn compiled_batch(seed: u64, n_hist: usize, n_fam: usize) -> Batch {
         specials.push(struct_decl("MemoV1", &Record { fields: vec![opt(), f("a", Ty::U8), f("b", Ty::Str)], steps: vec![added.clone()] }));
         specials.push(struct_decl("MemoV2", &Record { fields: vec![f("a", Ty::U8), f("b", Ty::Str)], steps: vec![added, Step::Removed { name: "opt".into() }] }));
     }
+    // a field made transient under its own name in front of live fields of the same chunk, one of them made optional
+    {
+        let cache = || Field { name: "cache".into(), ty: Ty::Option(a(Ty::Str)), transient: Some(Val::None), opt_spelling: 0 };
+        let steps = vec![Step::MadeOptional { name: "label".into() }, Step::MadeTransient { name: "cache".into() }];
+        specials.push(struct_decl("TrSkip", &Record { fields: vec![cache(), f("count", Ty::U32), Field { name: "label".into(), ty: Ty::Option(a(Ty::Str)), transient: None, opt_spelling: 0 }, f("tail", Ty::U8)], steps: steps.clone() }));
+        specials.push(Arc::new(Decl {
+            name: "TrSkipE".into(),
+            body: DeclBody::Enum {
+                sorted: false,
+                steps: vec![],
+                variants: vec![
+                    Variant { name: "Plain".into(), shape: Shape::Unit, transient: false, record: Record { fields: vec![], steps: vec![] } },
+                    Variant { name: "Job".into(), shape: Shape::Struct, transient: false, record: Record { fields: vec![cache(), f("count", Ty::U32), Field { name: "label".into(), ty: Ty::Option(a(Ty::Str)), transient: None, opt_spelling: 1 }], steps } },
+                ],
+            },
+        }));
+    }
     // constructors whose transient fields share a name (or a position) and a type, with different defaults
     {
         let tr = |n: &str, d: i128| Field { name: n.into(), ty: Ty::U32, transient: Some(Val::Int(d)), opt_spelling: 0 };
